@@ -163,7 +163,8 @@ const CONTENTS: [&str; 5] = ["a", "a  ", "''", "'''", ""];
 // ("      " is where the default configuration puts a literal that follows `x :=` on its own line)
 const BASES: [&str; 9] = ["", "  ", "    ", "\t", "\u{3000}", " \t", "\u{a0}\u{a0}", " \u{2003}", "      "];
 const TERMS: usize = 5;
-const AFTERS: [&str; 3] = [";", ".Trim;", " + 'x';"];
+// (the last two lengthen the closing run of quotes: the first run of N or more quotes closes the literal)
+const AFTERS: [&str; 5] = [";", ".Trim;", " + 'x';", "'';", "'''';"];
 pub const C12_POSITIONS: usize = 11;
 
 fn line_options() -> usize {
